@@ -164,6 +164,19 @@ pub fn kind_name(k: usize) -> &'static str {
 pub fn apply(prog: &Program, kind: usize, c: &mut Choices) -> Option<(Program, String)> {
     let mut p = prog.clone();
     let nf = p.funcs.len();
+    // the operator of the operator edits: every member of the class, not one representative
+    let ord_op = [BinOp::Lt, BinOp::Le, BinOp::Gt, BinOp::Ge][c.below(4)];
+    let arith_op = [BinOp::Mul, BinOp::Add, BinOp::Sub, BinOp::Div][c.below(4)];
+    let op_text = |o: BinOp| match o {
+        BinOp::Lt => "<",
+        BinOp::Le => "<=",
+        BinOp::Gt => ">",
+        BinOp::Ge => ">=",
+        BinOp::Mul => "*",
+        BinOp::Add => "+",
+        BinOp::Sub => "-",
+        _ => "/",
+    };
     // count pass then apply pass: sites are counted with the same traversal
     let mut target: Option<usize> = None;
     let mut desc = String::new();
@@ -434,8 +447,8 @@ pub fn apply(prog: &Program, kind: usize, c: &mut Choices) -> Option<(Program, S
                             15 => {
                                 if matches!(ty, Ty::Bool | Ty::Char | Ty::Unit) && hit(&mut count) {
                                     let v = Expr::Var(name.clone());
-                                    b.stmts.insert(i + 1, Stmt::Let("zz".into(), None, Expr::Bin(BinOp::Mul, Box::new(v.clone()), Box::new(v))));
-                                    desc = format!("`{name} * {name}` inserted for `{name}: {}`", ty_str(prog, &ty));
+                                    b.stmts.insert(i + 1, Stmt::Let("zz".into(), None, Expr::Bin(arith_op, Box::new(v.clone()), Box::new(v))));
+                                    desc = format!("`{name} {} {name}` inserted for `{name}: {}`", op_text(arith_op), ty_str(prog, &ty));
                                     applied = true;
                                     return;
                                 }
@@ -452,8 +465,8 @@ pub fn apply(prog: &Program, kind: usize, c: &mut Choices) -> Option<(Program, S
                             17 => {
                                 if matches!(ty, Ty::Bool | Ty::Char | Ty::Str | Ty::Rec(..) | Ty::Anon(_)) && hit(&mut count) {
                                     let v = Expr::Var(name.clone());
-                                    b.stmts.insert(i + 1, Stmt::Let("zz".into(), None, Expr::Bin(BinOp::Lt, Box::new(v.clone()), Box::new(v))));
-                                    desc = format!("`{name} < {name}` inserted for `{name}: {}`", ty_str(prog, &ty));
+                                    b.stmts.insert(i + 1, Stmt::Let("zz".into(), None, Expr::Bin(ord_op, Box::new(v.clone()), Box::new(v))));
+                                    desc = format!("`{name} {} {name}` inserted for `{name}: {}`", op_text(ord_op), ty_str(prog, &ty));
                                     applied = true;
                                     return;
                                 }
